@@ -610,3 +610,100 @@ Proof.
   { subst D A. replace ((last * fn + 2 ^ 22 * fd) * (pd * ld)) with (last * ld * fn * pd + 2 ^ 22 * (pd * ld * fd)) by ring. lia. }
   apply Z.mul_le_mono_pos_r in K5; [exact K5|nia].
 Qed.
+
+(* C13: a jitter factor shifts the delay by at most jitterFactor * delay, up to float32 rounding:
+   |jittered - delay| <= jitterFactor * delay + delay / 2^20 + 1 ns,
+   for every positive delay, every float32 jitter factor in (0, 1) and every draw in [0, 1) (util.RandomDelayFactor) *)
+Theorem jitter_factor_envelope delay mJ sJ random :
+  0 < delay -> 2 ^ 23 <= mJ < 2 ^ 24 -> fst (bval mJ sJ) < snd (bval mJ sJ) ->
+  wf random -> 0 <= fst random < snd random ->
+  let jf := bval mJ sJ in
+  2 ^ 20 * snd jf * Z.abs (random_delay_factor delay jf random - delay)
+  <= 2 ^ 20 * delay * fst jf + delay * snd jf + 2 ^ 20 * snd jf.
+Proof.
+  intros Hd HmJ Hlt1 Hw Hr. cbv zeta. unfold random_delay_factor.
+  set (jf := bval mJ sJ) in *. pose proof (bval_wf mJ sJ) as Wj. fold jf in Wj.
+  assert (Pj : 0 < fst jf) by (unfold jf, bval; cbn [fst]; pose proof (pv_pos sJ); pose proof (pow2_gt0 23 ltac:(lia)); nia).
+  destruct random as [rn rd]. unfold wf in Hw. cbn [fst snd] in Hw, Hr.
+  (* t1 = 2 * random in [0, 2];  t2 = 1 - t1 in [-1, 1] *)
+  unfold fmul at 3. cbn [fst snd].
+  set (x1 := (rn * 2, rd * 1)). assert (W1 : wf x1) by (unfold wf, x1; cbn [fst snd]; lia).
+  assert (B1 : le_int (rnd 24 x1) 2 /\ ge_int (rnd 24 x1) (- 2))
+    by (apply rnd_le_int; [lia|exact W1|cbn; lia| |]; unfold le_int, ge_int, x1; cbn [fst snd]; lia).
+  assert (N1 : 0 <= fst (rnd 24 x1)) by (apply rnd_nonneg; [lia|exact W1|unfold x1; cbn [fst snd]; lia]).
+  pose proof (rnd_wf 24 x1) as Wt1. destruct (rnd 24 x1) as [n1 d1]. unfold wf, le_int, ge_int in Wt1, B1, N1. cbn [fst snd] in Wt1, B1, N1.
+  unfold fsub. cbn [fst snd].
+  set (x2 := (1 * d1 - n1 * 1, 1 * d1)). assert (W2 : wf x2) by (unfold wf, x2; cbn [fst snd]; lia).
+  assert (B2 : le_int (rnd 24 x2) 1 /\ ge_int (rnd 24 x2) (- 1))
+    by (apply rnd_le_int; [lia|exact W2|cbn; lia| |]; unfold le_int, ge_int, x2; cbn [fst snd]; lia).
+  pose proof (rnd_wf 24 x2) as Wt2. destruct (rnd 24 x2) as [n2 d2]. unfold wf, le_int, ge_int in Wt2, B2. cbn [fst snd] in Wt2, B2.
+  (* u = t2 * jf, |u| <= jf *)
+  unfold fmul at 2. cbn [fst snd].
+  destruct jf as [jn jd] eqn:Ej. unfold wf in Wj. cbn [fst snd] in *.
+  set (xu := (n2 * jn, d2 * jd)). assert (Wu : wf xu) by (unfold wf, xu; cbn [fst snd]; nia).
+  assert (Bu : fle (rnd 24 xu) (bval mJ sJ) /\ fle (fneg (bval mJ sJ)) (rnd 24 xu)).
+  { apply rnd_abs_le; [lia|exact Wu|exact HmJ| |]; subst jf; rewrite Ej; unfold fle, fneg, xu; cbn [fst snd].
+    - assert (n2 * jn * jd <= jn * (d2 * jd)) by (assert (n2 * (jn * jd) <= d2 * (jn * jd)) by (apply Z.mul_le_mono_nonneg_r; nia); nia). lia.
+    - assert (- (jn * (d2 * jd)) <= n2 * jn * jd) by (assert (- d2 * (jn * jd) <= n2 * (jn * jd)) by (apply Z.mul_le_mono_nonneg_r; nia); nia). lia. }
+  subst jf. rewrite Ej in Bu. unfold fle, fneg in Bu. cbn [fst snd] in Bu.
+  pose proof (rnd_wf 24 xu) as Wtu. destruct (rnd 24 xu) as [un ud]. unfold wf in Wtu. cbn [fst snd] in Wtu, Bu.
+  (* g = 1 + u > 0,  |g - 1| <= jf *)
+  unfold fadd. cbn [fst snd].
+  set (gn := 1 * ud + un * 1). set (gd := 1 * ud).
+  assert (Gd : 0 < gd) by (subst gd; lia).
+  assert (HC : Z.abs (gn - gd) * jd <= jn * gd) by (subst gn gd; replace (1 * ud + un * 1 - 1 * ud) with un by ring; nia).
+  assert (Gn : 0 < gn /\ gn <= 2 * gd).
+  { assert (Z.abs (gn - gd) * jd < jd * gd) by nia. assert (Z.abs (gn - gd) < gd) by nia. lia. }
+  (* factor = rnd g, relative accuracy *)
+  unfold rnd at 1. destruct (gn =? 0) eqn:Eg0; [lia|]. destruct (0 <? gn) eqn:Eg1; [|lia].
+  pose proof (rnd_pos_rel 24 gn gd ltac:(lia) (proj1 Gn) Gd) as HB.
+  pose proof (rnd_pos_positive 24 gn gd ltac:(lia) (proj1 Gn) Gd) as Pf.
+  pose proof (rnd_pos_wf 24 gn gd) as Wf.
+  destruct (rnd_pos 24 gn gd) as [fn fd]. unfold wf in Wf. cbn [fst snd] in HB, Pf, Wf.
+  (* the product with float32(delay) *)
+  pose proof (backoff_step_accuracy delay fn fd Hd Pf Wf) as HA. cbv zeta in HA.
+  set (R := to_int (fmul 24 (of_int 24 delay) (fn, fd))) in *.
+  (* arithmetic *)
+  change (2 ^ 24) with 16777216 in *. change (2 ^ 22) with 4194304 in *. change (2 ^ 20) with 1048576.
+  set (S := fd * gd). assert (PS : 0 < S) by (subst S; nia).
+  set (U1 := Z.abs (R * fd - delay * fn) * gd). set (U2 := delay * Z.abs (fn * gd - gn * fd)). set (U3 := delay * fd * Z.abs (gn - gd)).
+  assert (HG : Z.abs (R - delay) * S <= U1 + U2 + U3).
+  { subst S U1 U2 U3.
+    replace (Z.abs (R - delay) * (fd * gd)) with (Z.abs ((R - delay) * (fd * gd))) by (rewrite Z.abs_mul, (Z.abs_eq (fd * gd)) by nia; reflexivity).
+    replace ((R - delay) * (fd * gd)) with ((R * fd - delay * fn) * gd + (delay * (fn * gd - gn * fd) + delay * fd * (gn - gd))) by ring.
+    eapply Z.le_trans; [apply Z.abs_triangle|]. rewrite Z.abs_mul, (Z.abs_eq gd) by lia.
+    eapply Z.le_trans; [apply Z.add_le_mono_l, Z.abs_triangle|].
+    rewrite !Z.abs_mul, (Z.abs_eq delay), (Z.abs_eq fd) by lia. lia. }
+  assert (H1 : 4194304 * U1 <= (delay * fn + 4194304 * fd) * gd) by (subst U1; assert (4194304 * Z.abs (R * fd - delay * fn) * gd <= (delay * fn + 4194304 * fd) * gd) by (apply Z.mul_le_mono_nonneg_r; lia); lia).
+  assert (H2 : 16777216 * U2 <= delay * (gn * fd)) by (subst U2; assert (delay * (Z.abs (fn * gd - gn * fd) * 16777216) <= delay * (gn * fd)) by (apply Z.mul_le_mono_nonneg_l; lia); lia).
+  assert (H3 : jd * U3 <= delay * fd * (jn * gd)) by (subst U3; assert (delay * fd * (Z.abs (gn - gd) * jd) <= delay * fd * (jn * gd)) by (apply Z.mul_le_mono_nonneg_l; nia); lia).
+  assert (H4 : 16777216 * (fn * gd) <= 16777217 * (gn * fd)) by lia.
+  assert (H5 : gn * fd <= 2 * gd * fd) by (apply Z.mul_le_mono_nonneg_r; lia).
+  assert (H6 : 4 * (fn * gd) + gn * fd <= 16 * (fd * gd)) by lia.
+  assert (H7 : jd * delay * (4 * (fn * gd) + gn * fd) <= jd * delay * (16 * (fd * gd))) by (apply Z.mul_le_mono_nonneg_l; nia).
+  (* 16777216 jd G <= ... *)
+  set (G := Z.abs (R - delay) * S) in *.
+  set (M1 := jd * delay * (fn * gd)). set (M2 := jd * delay * (gn * fd)). set (M3 := jd * (fd * gd)).
+  set (M4 := delay * jn * (fd * gd)). set (M5 := jd * delay * (fd * gd)).
+  assert (K1 : 16777216 * jd * G <= 16777216 * jd * U1 + 16777216 * jd * U2 + 16777216 * jd * U3).
+  { assert (16777216 * jd * G <= 16777216 * jd * (U1 + U2 + U3)) by (apply Z.mul_le_mono_nonneg_l; lia).
+    replace (16777216 * jd * U1 + 16777216 * jd * U2 + 16777216 * jd * U3) with (16777216 * jd * (U1 + U2 + U3)) by ring. assumption. }
+  assert (K2 : 16777216 * jd * U1 <= 4 * M1 + 16777216 * M3).
+  { assert (jd * (4194304 * U1) <= jd * ((delay * fn + 4194304 * fd) * gd)) by (apply Z.mul_le_mono_nonneg_l; lia).
+    replace (4 * M1 + 16777216 * M3) with (4 * (jd * ((delay * fn + 4194304 * fd) * gd))) by (subst M1 M3; ring).
+    replace (16777216 * jd * U1) with (4 * (jd * (4194304 * U1))) by ring. lia. }
+  assert (K3 : 16777216 * jd * U2 <= M2).
+  { assert (jd * (16777216 * U2) <= jd * (delay * (gn * fd))) by (apply Z.mul_le_mono_nonneg_l; lia).
+    replace M2 with (jd * (delay * (gn * fd))) by (subst M2; ring). replace (16777216 * jd * U2) with (jd * (16777216 * U2)) by ring. assumption. }
+  assert (K4 : 16777216 * jd * U3 <= 16777216 * M4).
+  { replace (16777216 * jd * U3) with (16777216 * (jd * U3)) by ring. replace M4 with (delay * fd * (jn * gd)) by (subst M4; ring). lia. }
+  assert (K5 : 4 * M1 + M2 <= 16 * M5).
+  { replace (4 * M1 + M2) with (jd * delay * (4 * (fn * gd) + gn * fd)) by (subst M1 M2; ring).
+    replace (16 * M5) with (jd * delay * (16 * (fd * gd))) by (subst M5; ring). exact H7. }
+  assert (K : 16777216 * jd * G <= (1048576 * delay * jn + delay * jd + 1048576 * jd) * 16 * S).
+  { replace ((1048576 * delay * jn + delay * jd + 1048576 * jd) * 16 * S) with (16777216 * M4 + 16 * M5 + 16777216 * M3) by (subst M3 M4 M5 S; ring).
+    lia. }
+  subst G.
+  assert (K' : (1048576 * jd * Z.abs (R - delay)) * (16 * S) <= (1048576 * delay * jn + delay * jd + 1048576 * jd) * (16 * S)) by lia.
+  apply Z.mul_le_mono_pos_r in K'; lia.
+Qed.
